@@ -1,4 +1,5 @@
 import CheetahModel.Proofs.Conj
+import CheetahModel.Proofs.SolenoidFlow
 /-!
 # C02 — linear maps equal the exact flow of each element's linear optics
 
@@ -118,6 +119,25 @@ theorem marker_identity : (identMap : Mat7 ℝ).toM = 1 := Mat7.toM_one
 
 /-- the undulator (as repaired by the `fix:` commit) and the drift have the same map -/
 theorem undulator_is_drift (L E m : ℝ) : undulatorMap L E m = driftMap L E m := rfl
+
+/-- the solenoid's generator read as equations of motion (canonical variables, `k = B/(2Bρ)`):
+`x' = px + k y`, `px' = −k² x + k py`, `y' = −k x + py`, `py' = −k px − k² y`, `τ' = δ/(1−γ²)` -/
+theorem solenoid_generator_reads (k slip : ℝ) (v : Fin 7 → ℝ) :
+    (genSol k slip).mulVec v 0 = v 1 + k * v 2 ∧ (genSol k slip).mulVec v 1 = -(k * k) * v 0 + k * v 3 ∧
+    (genSol k slip).mulVec v 2 = -k * v 0 + v 3 ∧ (genSol k slip).mulVec v 3 = -k * v 1 - k * k * v 2 ∧
+    (genSol k slip).mulVec v 4 = slip * v 5 := by
+  refine ⟨?_, ?_, ?_, ?_, ?_⟩ <;> simp [genSol, Matrix.mulVec, dotProduct, Fin.sum_univ_succ] <;> ring
+
+/-- the solenoid map is a one-parameter group in the length (both branches `k = 0`, `k ≠ 0`) … -/
+theorem solenoid_group_law (a b k E m : ℝ) :
+    (solenoidBody (a + b) k E m).toM = (solenoidBody a k E m).toM * (solenoidBody b k E m).toM ∧
+    (solenoidBody 0 k E m).toM = 1 := ⟨solenoid_add a b k E m, solenoid_zero k E m⟩
+
+/-- … and solves `dR/dL = A_sol · R(L)` for every entry at every length: it is the exact flow of the solenoid's
+linearised equations of motion -/
+theorem solenoid_is_flow (k E m L : ℝ) (i j : Fin 7) :
+    HasDerivAt (fun l => (solenoidBody l k E m).toM i j)
+      ((genSol k (solSlip E m) * (solenoidBody L k E m).toM) i j) L := solenoid_flow k E m L i j
 
 /-! non-vacuity -/
 example : guardK1 (-3) + (0.2:ℝ) * 0.2 ≠ 0 := by unfold guardK1; norm_num
